@@ -151,9 +151,6 @@ def desugar_chain(cx, fn_by_path, ci, stages, line):
 
     def closure_call(cl_op, args, dest, nxt):
         """block calling closure `cl_op` (operand of the closure aggregate) with `args` (operands)"""
-        c, cl_local = _closure_of(d, fn_by_path, f, cl_op)
-        if c is None:
-            raise ValueError("adaptor argument is not a closure")
         return _closure_call_block(cx, fn_by_path, cl_op, args, dest, nxt, line, pending_inline)
 
     dest = cons["dest"]
@@ -370,8 +367,11 @@ def find_chains(d, f, fn_by_path, children, force=False):
             elif nm == "fold":
                 cl_ops.append(tt["args"][2])
         cls = [_closure_of(d, fn_by_path, f, o)[0] for o in cl_ops]
-        if any(c is None for c in cls) or not cls:
+        fn_items = [_fn_item_of(d, fn_by_path, f, o) if c is None else None for c, o in zip(cls, cl_ops)]
+        if any(c is None and g is None for c, g in zip(cls, fn_items)) or not cls:
             continue
+        has_fn_item = any(g is not None for g in fn_items)
+        cls = [c for c in cls if c is not None]
         if name == "collect":
             dty = d["types"][f["locals"][t["dest"][0]][0]].get("s", "") if not t["dest"][1] else ""
             if not dty.startswith("std::vec::Vec<"):
@@ -388,7 +388,7 @@ def find_chains(d, f, fn_by_path, children, force=False):
         sl = _plain_local(src_op)
         src_adt = d["types"][f["locals"][sl][0]].get("adt", "") if sl is not None else ""
         hash_src = src_adt.startswith("std::collections::hash_map::") or src_adt.startswith("std::collections::hash_set::")
-        if not force and not any(_calls_local(c, fn_by_path, children) for c in cls) and not (hash_src and name in ("collect", "extend", "for_each", "fold")):
+        if not force and not has_fn_item and not any(_calls_local(c, fn_by_path, children) for c in cls) and not (hash_src and name in ("collect", "extend", "for_each", "fold")):
             continue  # pure combinator use: stays an atomic call (unless it turns hash order into a sequence)
         for bi, _, _ in stages:
             used.add(bi)
@@ -398,11 +398,36 @@ def find_chains(d, f, fn_by_path, children, force=False):
     return out
 
 
+def _fn_item_of(d, fn_by_path, f, operand):
+    """fact record of the local function named by a zero-sized fn-item operand, or None."""
+    ty = None
+    if isinstance(operand.get("k"), dict):
+        ty = operand["k"].get("ty")
+    else:
+        p = operand.get("m") or operand.get("c")
+        if p is not None and not p[1]:
+            ty = f["locals"][p[0]][0]
+    if ty is None or d["types"][ty].get("k") != "fndef":
+        return None
+    g = fn_by_path.get(d["types"][ty].get("def"))
+    return g if g is not None and g.get("local", True) and g.get("blocks") else None
+
+
 def _closure_call_block(cx, fn_by_path, cl_op, args, dest, nxt, line, pending):
     d, f = cx.d, cx.f
     c, cl_local = _closure_of(d, fn_by_path, f, cl_op)
     if c is None:
-        raise ValueError("adaptor argument is not a closure")
+        # a function item passed by name (`filter_map(create_header_action)`): call it directly
+        fd = _fn_item_of(d, fn_by_path, f, cl_op)
+        if fd is None:
+            raise ValueError("adaptor argument is not a closure")
+        if len(args) != fd["argc"]:
+            raise ValueError("fn item arity")
+        callee = {"path": fd["path"], "name": fd["name"], "local": True, "krate": fd.get("krate"), "substs": []}
+        for k in ("adt", "self_ty", "trait"):
+            if fd.get(k):
+                callee[k] = fd[k]
+        return cx.block([], {"k": "call", "f": callee, "args": list(args), "dest": [dest, []], "t": nxt, "u": None, "s": line, "fs": line})
     CR = cx.local()
     by_ref = d["types"][c["locals"][1][0]].get("k") == "ref" if len(c["locals"]) > 1 else True
     if by_ref:
